@@ -305,7 +305,7 @@ func (r *Run) noNul(n int) []byte {
 // randPkt draws a packet in the C01 domain; opts maps code -> value.
 func (r *Run) randPkt(opts map[byte][]byte) [][]byte {
 	a := [][]byte{
-		{byte(r.Rng.Intn(256))}, {0, byte(r.Rng.Intn(256))}, {byte(r.Rng.Intn(256))}, r.Bytes(4), r.Bytes(2), r.Bytes(2),
+		{byte(r.Pick(r.Rng.Intn(256), 0, 1, 2, 255))}, {0, byte(r.Rng.Intn(256))}, {byte(r.Pick(r.Rng.Intn(256), 0, 255))}, r.edge(4), r.edge(2), r.edge(2),
 		r.randIP(), r.randIP(), r.randIP(), r.randIP(),
 		r.Bytes(r.Pick(0, 1, 6, 6, 6, 8, 15, 16)),
 		r.noNul(r.Pick(0, 0, 1, 10, 62, 63)),
@@ -810,8 +810,18 @@ func genC07(r *Run) {
 				p := pktOfArgs(a)
 				// construction programs: also via Update/Del sequences
 				if t%2 == 1 {
-					p.UpdateOption(dhcpv4.OptGeneric(dhcpv4.GenericOptionCode(77), []byte{1}))
-					p.Options.Del(dhcpv4.GenericOptionCode(77))
+					tmp := byte(77) // a code that is not part of the contents
+					for inCodes := true; inCodes; {
+						inCodes = false
+						for _, c := range codes {
+							if c == tmp {
+								inCodes = true
+								tmp++
+							}
+						}
+					}
+					p.UpdateOption(dhcpv4.OptGeneric(dhcpv4.GenericOptionCode(tmp), []byte{1}))
+					p.Options.Del(dhcpv4.GenericOptionCode(tmp))
 				}
 				w := p.ToBytes()
 				evals++
@@ -820,7 +830,7 @@ func genC07(r *Run) {
 					r.Add(eV4Enc, a...)
 					validateWire(r, p, w, Case{eV4Enc, a}.Line())
 				} else if !bytes.Equal(w, want) {
-					r.Fail("c07-order-dependent", Case{eV4Enc, a}.Line(), "same contents, different bytes for a different insertion order / repeated encoding")
+					r.Fail("c07-order-dependent", Case{eV4Enc, a}.Line(), "same contents, different bytes for a different insertion order / repeated encoding: "+firstDiff(hx(want), hx(w)))
 				}
 				if pi%97 == 0 && t == 0 {
 					r.Add(eV4Enc, a...)
@@ -876,6 +886,36 @@ func (r *Run) randPktSameHeader(a [][]byte, opts map[byte][]byte) [][]byte {
 	r.Rng.Shuffle(len(keys), func(i, j int) { keys[i], keys[j] = keys[j], keys[i] })
 	for _, k := range keys {
 		b = append(b, []byte{byte(k)}, opts[byte(k)])
+	}
+	return b
+}
+
+// edge: n octets, mostly random but often a boundary pattern (all zero, all ones, one, high bit only)
+func (r *Run) edge(n int) []byte {
+	b := r.Bytes(n)
+	switch r.Rng.Intn(10) {
+	case 0, 1:
+		for i := range b {
+			b[i] = 0
+		}
+	case 2:
+		for i := range b {
+			b[i] = 0xff
+		}
+	case 3:
+		for i := range b {
+			b[i] = 0
+		}
+		if n > 0 {
+			b[n-1] = 1
+		}
+	case 4:
+		for i := range b {
+			b[i] = 0
+		}
+		if n > 0 {
+			b[0] = 0x80
+		}
 	}
 	return b
 }
